@@ -1,6 +1,7 @@
 import MoPepGen.Lemmas.Coord
 import MoPepGen.Lemmas.Seq
 import MoPepGen.Lemmas.Cache
+import MoPepGen.Lemmas.Gtf
 /-!
 # C11 — reference model: coordinates and sequences are mutually consistent
 
@@ -505,5 +506,243 @@ theorem exon_lookup_spec (t : Transcript) (hw : t.WF) (f : Iv) (k : Nat) :
     constructor
     · rintro ⟨j, hj, rfl⟩; simpa using hj
     · intro h; exact ⟨k, h, by omega⟩
+
+/-! ## GTF codec: writing an annotation and parsing it back preserves all models
+
+`Model/Gtf.lean` models `GtfIO.write` / `to_gtf_record` and `GenomicAnnotation.dump_gtf` /
+`line_to_seq_feature` / `add_gene_record` / `add_transcript_record` / `add_record` /
+`sort_records` (`split_utr`) on abstract lines.
+
+**What is compared.**  `Anno.erase` keeps, for every gene: key, order, the gene record with
+its whole attribute dict (`gene_id`, `gene_name`, `gene_type`/`gene_biotype`, tags) and the list
+of transcript ids; for every transcript: key, the `transcript` record with its whole attribute
+dict (ids, biotype, all tags — hence `cds_start_NF` / `mRNA_end_NF`), chromosome, interval,
+strand; the coding flag; the four ids of the model (`transcript_id`, `gene_id`, `protein_id`,
+`gene_name`); and the eight record lists `cds`, `exon`, `start_codon`, `stop_codon`, `utr`,
+`five_utr`, `three_utr`, `selenocysteine` with chromosome, type, interval, strand and frame of
+every record, in order.  It drops only the attribute dicts of the records *inside* the eight
+lists: `add_record` overwrites the ids of every record with those of the model, so these dicts
+depend on the order of the records in the file and change on the first round trip of a
+freshly loaded ENSEMBL file (`protein_id` spreads from the CDS records to the records written
+after them); `gtf_roundtrip_exact` covers them from the second round trip on.
+`Anno.canon` re-lists the transcripts dict gene by gene (the order `write` emits); it is the
+identity on annotations loaded from a file that lists every gene's transcripts before the next
+gene (`Anno.ordered`), and never changes a look-up (`gtf_roundtrip_lookup`).
+
+The inferred `source` (GENCODE / ENSEMBL) of a record is not part of the model (a function of
+the chromosome names; it selects which of the two compared attributes `biotype` reads; the
+harness compares it on the real objects).  Tab splitting and decimal integers are done by the
+driver, not modelled. -/
+
+section GtfCodec
+open MoPepGen.Gtf
+open MoPepGen.Gvf (Str AttrVal dictGet)
+
+/-- a small ENSEMBL-style annotation on the minus strand (the records commit deb9e01 made
+`write` emit: `five_prime_utr`, `three_prime_utr`, `start_codon`, `stop_codon`) -/
+def S (s : String) : Str := s.toList
+def gtfExAttrs (extra : List (Str × AttrVal)) : List (Str × AttrVal) :=
+  [(kGeneId, .str (S "G1")), (kTranscriptId, .str (S "T1")),
+   (kGeneBiotype, .str (S "protein_coding"))] ++ extra
+def gtfExRec (ty : String) (a b : Nat) (fr : Option Nat) (extra : List (Str × AttrVal)) : Rec :=
+  { chrom := S "17", type := S ty, iv := ⟨a, b⟩, strand := .minus, frame := fr,
+    attrs := gtfExAttrs extra }
+def gtfExPid : List (Str × AttrVal) := [(kProteinId, .str (S "P1"))]
+def gtfExT : Rec :=
+  gtfExRec "transcript" 10 60 none [(kTag, .list [S "basic", S "cds_start_NF"])]
+/-- exons [10,30) [40,60); CDS [20,30) [40,50); 5'UTR [50,60); stop codon [17,20); 3'UTR [10,17);
+as loaded from a file in which the first exon precedes the first CDS record (it carries no
+`protein_id`) -/
+def gtfExTx : TxModel :=
+  { transcript := some gtfExT,
+    cds := [gtfExRec "CDS" 20 30 (some 2) gtfExPid, gtfExRec "CDS" 40 50 (some 0) gtfExPid],
+    exon := [gtfExRec "exon" 10 30 none [], gtfExRec "exon" 40 60 none gtfExPid],
+    startCodon := [gtfExRec "start_codon" 47 50 (some 0) gtfExPid],
+    stopCodon := [gtfExRec "stop_codon" 17 20 (some 0) gtfExPid],
+    fiveUtr := [gtfExRec "five_prime_utr" 50 60 none gtfExPid],
+    threeUtr := [gtfExRec "three_prime_utr" 10 17 none gtfExPid],
+    sec := [gtfExRec "Selenocysteine" 41 44 none gtfExPid],
+    isProteinCoding := some true,
+    transcriptId := some (S "T1"), geneId := some (S "G1"), proteinId := some (S "P1") }
+def gtfExGene : Rec :=
+  { chrom := S "17", type := S "gene", iv := ⟨5, 70⟩, strand := GStrand.minus, frame := none,
+    attrs := [(kGeneId, .str (S "G1")), (kGeneName, .str (S "N"))] }
+def gtfEx : Anno := { genes := [(S "G1", ⟨gtfExGene, [S "T1"]⟩)], txs := [(S "T1", gtfExTx)] }
+
+set_option maxRecDepth 100000 in
+example : gtfEx.wf = true := by decide
+set_option maxRecDepth 100000 in
+example : gtfEx.ordered = true := by decide
+set_option maxRecDepth 100000 in
+example : gtfEx.textOK = true := by decide
+/-- the attribute dicts of the records are not yet in their fixed point … -/
+example : gtfEx.stable = false := by decide
+set_option maxRecDepth 100000 in
+/-- … but the normal form is reproduced (the statement of `gtf_roundtrip` on the example) -/
+example : (match writeGtf gtfEx with
+    | .ok ls => (parseGtf ls).map Anno.erase
+    | .error e => .error e) = .ok gtfEx.erase := by decide
+example : colParse (colText [(kGeneId, S "G1"), (kTag, S "basic"), (kGeneName, S "a b")])
+    = .ok [(kGeneId, S "G1"), (kTag, S "basic"), (kGeneName, S "a b")] := by decide
+
+/-- The writer as it was before commit deb9e01 (`records = sec + sorted(cds + exon) + utr`)
+loses the ENSEMBL UTR and codon records: on the example the reloaded model has no 3'UTR, so
+`get_cds_end_index` falls back to the sequence end. -/
+def txRecordsOld (m : TxModel) : List Rec := m.sec ++ (sortRecs (m.cds ++ m.exon) ++ m.utr)
+set_option maxRecDepth 100000 in
+example : (sortRecords (foldTx {} (txPlus gtfExT (some true) :: txRecordsOld gtfExTx))).map
+    (fun m => (m.threeUtrIvs, m.fiveUtr.length, m.stopCodon.length)) = .ok ([], 0, 0) := by decide
+example : gtfExTx.threeUtrIvs = [⟨10, 17⟩] := by decide
+
+/-- **Attribute column codec.**  `colParse` (`rstrip(';')`, `split(';')`, `strip()`,
+`split(' ', 1)`) reads back exactly the `(key, value)` list `colText` (`f" {key} {val};"`)
+wrote, for every non-empty list whose keys are non-empty and contain neither white space nor
+`;`, and whose values are non-empty, contain no `;` and neither start nor end with white space. -/
+theorem gtf_attr_column_roundtrip (kvs : List (Str × Str)) (hne : kvs ≠ [])
+    (h : ∀ kv ∈ kvs, keyTextOK kv.1 = true ∧ valTextOK kv.2 = true) :
+    colParse (colText kvs) = .ok kvs :=
+  colParse_colText hne h
+
+/-- **The column text of every written line.**  Every line `write` emits is
+`to_gtf_record r flag` for a record `r` of the annotation; if the attribute dict of `r` is
+text-clean (`Rec.textOK`: something is written; keys non-empty without white space or `;`;
+values non-empty, without `;`, not starting or ending with white space) then the column-9 text
+of that line is read back to exactly the `(key, value)` list of the abstract line — so the
+theorems below, stated on abstract lines, carry over to the written text. -/
+theorem gtf_line_text_roundtrip (r : Rec) (h : r.textOK = true) (ipc : Option Bool) :
+    colParse (colText (recToLine r ipc).attrs) = .ok (recToLine r ipc).attrs :=
+  colParse_recToLine h ipc
+
+/-- **Record codec.**  `line_to_seq_feature (to_gtf_record r) = r` for every record with
+`start ≤ end`, strand `+`/`-`/none, and an attribute dict with distinct kept keys in which
+`tag` (only) holds a non-empty list and no value starts or ends with `"`: 0-based half-open
+interval ↔ 1-based inclusive columns, strand, frame, attribute dict with its order. -/
+theorem gtf_record_roundtrip (r : Rec) (h : r.ok = true) :
+    lineToRec (recToLine r none) = .ok r :=
+  lineToRec_recToLine h
+
+/-- the `transcript` record written with the coding flag comes back with the flag as its last
+attribute (`add_record` then pops it into `is_protein_coding`) -/
+theorem gtf_transcript_record_roundtrip (r : Rec) (h : r.ok = true)
+    (hk : dictGet r.attrs kIpc = none) (ipc : Option Bool) :
+    lineToRec (recToLine r ipc) = .ok { r with attrs := withIpc r.attrs ipc } :=
+  lineToRec_recToLine_ipc h (not_mem_keys_of_dictGet_none hk) ipc
+
+/-- **Round trip, normal form.**  For EVERY well-formed annotation (`Anno.wf`: any number of
+genes and transcripts, any strand mix, GENCODE `UTR` records and/or ENSEMBL
+`five_prime_utr`/`three_prime_utr`, start/stop codons, Sec, tags, coding flag set or not)
+`GtfIO.write` succeeds and `dump_gtf` of the written lines succeeds and returns an annotation
+equal to the original in every compared field (see the section header), the transcripts dict
+listed gene by gene. -/
+theorem gtf_roundtrip (a : Anno) (h : a.wf = true) :
+    ∃ ls a', writeGtf a = .ok ls ∧ parseGtf ls = .ok a' ∧ a'.erase = a.canon.erase := by
+  obtain ⟨ls, hw, hp⟩ := parse_write h
+  obtain ⟨_, _, h3⟩ := Anno.wf_iff h
+  refine ⟨ls, _, hw, hp, ?_⟩
+  simp only [Anno.erase, Anno.canon, List.map_map]
+  congr 1
+  apply List.map_congr_left
+  intro kv hkv
+  obtain ⟨gid, t, w⟩ := mem_canonTxs h3 (by rw [← canon_txs]; exact hkv)
+  simp only [Function.comp_def, reloadTx_erase w]
+
+/-- on an annotation whose transcripts dict is already listed gene by gene the result is the
+original itself (in the normal form) -/
+theorem gtf_roundtrip_ordered (a : Anno) (h : a.wf = true) (ho : a.ordered = true) :
+    ∃ ls a', writeGtf a = .ok ls ∧ parseGtf ls = .ok a' ∧ a'.erase = a.erase := by
+  obtain ⟨ls, a', h1, h2, h3⟩ := gtf_roundtrip a h
+  have : a.canon = a := by simpa [Anno.ordered] using ho
+  exact ⟨ls, a', h1, h2, by rw [h3, this]⟩
+
+/-- **Round trip, exact.**  If moreover the key loop of `add_record` changes no attribute dict
+(`Anno.stable`: true for everything that went through one write → parse), the parsed
+annotation is the original with ALL attribute dicts, transcripts listed gene by gene. -/
+theorem gtf_roundtrip_exact (a : Anno) (h : a.wf = true) (hs : a.stable = true) :
+    ∃ ls, writeGtf a = .ok ls ∧ parseGtf ls = .ok a.canon := by
+  obtain ⟨ls, hw, hp⟩ := parse_write h
+  obtain ⟨_, _, h3⟩ := Anno.wf_iff h
+  refine ⟨ls, hw, ?_⟩
+  rw [hp]
+  have : (a.canon.txs.map fun kv => (kv.1, reloadTx kv.2)) = a.canon.txs := by
+    conv => rhs; rw [← List.map_id a.canon.txs]
+    apply List.map_congr_left
+    intro kv hkv
+    obtain ⟨gid, t, w⟩ := mem_canonTxs h3 (by rw [← canon_txs]; exact hkv)
+    have hmem : kv ∈ a.txs := by
+      rw [canon_txs] at hkv
+      simp only [canonTxs, List.mem_flatMap, List.mem_filterMap] at hkv
+      obtain ⟨g, _, tid, _, hk⟩ := hkv
+      cases hd : dictGet a.txs tid with
+      | none => rw [hd] at hk; cases hk
+      | some m =>
+        rw [hd] at hk; simp only [Option.map_some, Option.some.injEq] at hk
+        subst hk; exact mem_keys_of_dictGet hd
+    have hst : kv.2.stable = true := by
+      have hs' : ∀ x ∈ a.txs, x.2.stable = true := by
+        simpa [Anno.stable] using hs
+      exact hs' kv hmem
+    simp only [reloadTx_exact w hst, id]
+  rw [this]; rfl
+
+/-- **Look-ups are preserved.**  After the round trip every transcript listed by a gene is
+found under its id, and its model equals the original's in the normal form: the order of the
+transcripts dict is the only thing `canon` changes. -/
+theorem gtf_roundtrip_lookup (a : Anno) (h : a.wf = true) :
+    ∃ ls a', writeGtf a = .ok ls ∧ parseGtf ls = .ok a' ∧ a'.genes = a.genes ∧
+      ∀ g ∈ a.genes, ∀ tid ∈ g.2.transcripts, ∃ m m', dictGet a.txs tid = some m ∧
+        dictGet a'.txs tid = some m' ∧ m'.erase = m.erase := by
+  obtain ⟨ls, hw, hp⟩ := parse_write h
+  obtain ⟨_, _, h3⟩ := Anno.wf_iff h
+  refine ⟨ls, _, hw, hp, rfl, ?_⟩
+  intro g hg tid ht
+  obtain ⟨m, hm, hc⟩ := dictGet_canon h hg ht
+  obtain ⟨_, t, _, w⟩ := (h3 g hg).txs tid ht |>.imp fun m' h' => h'
+  refine ⟨m, reloadTx m, hm, ?_, ?_⟩
+  · simp only [dictGet_map_snd reloadTx, hc, Option.map_some]
+  · obtain ⟨m2, t2, hm2, w2⟩ := (h3 g hg).txs tid ht
+    rw [hm] at hm2; cases hm2
+    exact reloadTx_erase w2
+
+/-- the ORF start / end that `get_transcript_sequence` attaches, as a function of the model
+(`txOrf` of `Model/Coord.lean`, the subject of `cds_start_spec_*`, `cds_end_spec`) -/
+def TxModel.orf (m : TxModel) : Option (Except CoordErr (Option (Nat × Int))) :=
+  m.toTranscript.map fun t => txOrf t m.cdsList m.threeUtrIvs
+
+/-- the selenocysteine positions `get_transcript_sequence` attaches (`secLocs`, `sec_spec`) -/
+def TxModel.secPositions (m : TxModel) : Option (Except CoordErr (List (Nat × Nat))) :=
+  m.toTranscript.map fun t => secLocs t m.secIvs
+
+/-- **Consequences for the coordinate theorems.**  Two transcript models that agree in the
+normal form give the coordinate functions the same input: strand and exon intervals (hence
+every coordinate map and the transcript sequence), CDS intervals with frames, 3'UTR and Sec
+intervals; the same ORF start / end and Sec positions; the same coding flag, tags
+(`cds_start_NF`, `mRNA_end_NF`, …) and ids. -/
+theorem gtf_normal_form_determines_coordinates (m m' : TxModel) (h : m'.erase = m.erase) :
+    m'.toTranscript = m.toTranscript ∧ m'.cdsList = m.cdsList ∧
+      m'.threeUtrIvs = m.threeUtrIvs ∧ m'.secIvs = m.secIvs ∧
+      TxModel.orf m' = TxModel.orf m ∧ TxModel.secPositions m' = TxModel.secPositions m ∧
+      m'.isProteinCoding = m.isProteinCoding ∧ (∀ tag, m'.hasTag tag = m.hasTag tag) ∧
+      m'.ids = m.ids := by
+  obtain ⟨h1, h2, h3, h4, h5, h6, h7⟩ := erase_eq_coord h
+  refine ⟨h1, h2, h3, h4, ?_, ?_, h5, h6, h7⟩
+  · simp only [TxModel.orf, h1, h2, h3]
+  · simp only [TxModel.secPositions, h1, h4]
+
+/-- **ORF and Sec positions survive the round trip**: for every transcript listed by a gene of
+a well-formed annotation, the model found under the same id after write → parse has the same
+ORF start / end and selenocysteine positions (and coding flag, tags, exons, strand). -/
+theorem gtf_roundtrip_preserves_orf_sec (a : Anno) (h : a.wf = true) :
+    ∃ ls a', writeGtf a = .ok ls ∧ parseGtf ls = .ok a' ∧
+      ∀ g ∈ a.genes, ∀ tid ∈ g.2.transcripts, ∃ m m', dictGet a.txs tid = some m ∧
+        dictGet a'.txs tid = some m' ∧ m'.toTranscript = m.toTranscript ∧
+        TxModel.orf m' = TxModel.orf m ∧ TxModel.secPositions m' = TxModel.secPositions m ∧
+        m'.isProteinCoding = m.isProteinCoding ∧ ∀ tag, m'.hasTag tag = m.hasTag tag := by
+  obtain ⟨ls, a', h1, h2, _, h4⟩ := gtf_roundtrip_lookup a h
+  refine ⟨ls, a', h1, h2, fun g hg tid ht => ?_⟩
+  obtain ⟨m, m', hm, hm', he⟩ := h4 g hg tid ht
+  obtain ⟨c1, _, _, _, c5, c6, c7, c8, _⟩ := gtf_normal_form_determines_coordinates m m' he
+  exact ⟨m, m', hm, hm', c1, c5, c6, c7, c8⟩
+
+end GtfCodec
 
 end MoPepGen.Props.C11
